@@ -150,7 +150,13 @@ impl Decoder for RawMapOperationDecoder {
                         problem: Text::from(format!("{}{}", BAD_RECORD_SIZE, total_len)),
                     }));
                 }
-                let required = LEN_SIZE + total_len;
+                let required = if let Some(required) = total_len.checked_add(LEN_SIZE) {
+                    required
+                } else {
+                    return Err(FrameIoError::BadFrame(InvalidFrame::InvalidHeader {
+                        problem: Text::from(format!("{}{}", BAD_RECORD_SIZE, total_len)),
+                    }));
+                };
                 if src.remaining() < required {
                     return Ok(None);
                 }
@@ -159,7 +165,7 @@ impl Decoder for RawMapOperationDecoder {
                 frame.advance(TAG_SIZE);
                 let key_len = frame.get_u64() as usize;
 
-                if key_len + LEN_SIZE + TAG_SIZE > total_len {
+                if key_len > total_len - LEN_SIZE - TAG_SIZE {
                     return Err(FrameIoError::BadFrame(InvalidFrame::InvalidHeader {
                         problem: Text::from(format!("{}{}", BAD_KEY_SIZE, key_len)),
                     }));
@@ -175,7 +181,13 @@ impl Decoder for RawMapOperationDecoder {
                         problem: Text::from(format!("{}{}", BAD_RECORD_SIZE, total_len)),
                     }));
                 }
-                let required = LEN_SIZE + total_len;
+                let required = if let Some(required) = total_len.checked_add(LEN_SIZE) {
+                    required
+                } else {
+                    return Err(FrameIoError::BadFrame(InvalidFrame::InvalidHeader {
+                        problem: Text::from(format!("{}{}", BAD_RECORD_SIZE, total_len)),
+                    }));
+                };
                 if src.remaining() < required {
                     return Ok(None);
                 }
@@ -231,8 +243,9 @@ impl<K: RecognizerReadable, V: RecognizerReadable> Decoder for MapOperationDecod
                                 break Ok(None);
                             }
                             let key_len = header.get_u64() as usize;
-                            let value_len = if let Some(l) =
-                                total_len.checked_sub(key_len + LEN_SIZE + TAG_SIZE)
+                            let value_len = if let Some(l) = key_len
+                                .checked_add(LEN_SIZE + TAG_SIZE)
+                                .and_then(|header_and_key| total_len.checked_sub(header_and_key))
                             {
                                 l
                             } else {
